@@ -171,3 +171,37 @@ def _p4s(case):
 @predicate("run_length_on_stride")
 def _p4(case, failure):
     return run_length_on_stride(case) and _bucket(failure).startswith("solution-space")
+
+
+def leftover_round_with_unequal_source_counts(spec):
+    """a crossing ends in a partial (leftover) round AND contains a within-trial derived factor that depends on a basic
+    factor outside that crossing (so crossing combinations have different numbers of completions)"""
+    if not _is_spec(spec):
+        return False
+    from . import ref as R
+    try:
+        r = R.Ref(spec)
+    except Exception:
+        return False
+    if r.C.get("T") is None:
+        return False
+    dm = S.derived_by_name(spec)
+    for info in r.C["crossings"]:
+        if (r.C["T"] - info["start"]) % info["chunk"] == 0:
+            continue
+        for f in info["factors"]:
+            if f in dm and not r.is_complex(f):
+                deps = r.basic_deps(f)
+                if deps is not None and not deps <= set(info["factors"]):
+                    return True
+    return False
+
+
+@predicate("leftover_round_with_unequal_source_counts.shape")
+def _p5s(case):
+    return leftover_round_with_unequal_source_counts(case)
+
+
+@predicate("leftover_round_with_unequal_source_counts.nonuniform")
+def _p5(case, failure):
+    return leftover_round_with_unequal_source_counts(case) and _bucket(failure) == "nonuniform"
